@@ -48,7 +48,13 @@ def run(tier):
                    "3 chunks x 3 cells, file lengths {9,7,4,0}, reads 1..4, chunk requests, 4 calls")
     seeds = corpus.seed_files(rnd, big=True) + corpus.special_files(rnd)
     if tier == "quick":
+        allseeds = seeds
         seeds = rnd.sample(seeds, 10) + corpus.special_files(rnd)[:2]
+        # files without a whole-data checksum to fall back on (uncompressed-source flag), streamed (no compression): always in
+        for sd in allseeds:
+            hh0 = ref.parse_header(sd[1])
+            if hh0.ok and hh0.comp_type == 0 and (hh0.flags & 4) and all(sd[0] != x[0] for x in seeds):
+                seeds.append(sd)
     cases = []
     for (sname, buf, chunks) in seeds:
         # (memory: the mutants and their reference decodings are held until the trace is built; large files get fewer)
@@ -59,6 +65,15 @@ def run(tier):
         # the unmodified file read while the kernel delivers it in short pieces (every read(2) returns at most cap bytes)
         for cap in (7, 1000, 20000):
             cases.append((sname + "-orig+cap:%d" % cap, buf))
+        # damage in the LAST chunk, read by a reader that asks for exactly the data length and then closes (no read returns 0):
+        # the close is the last chance to refuse
+        hh = ref.parse_header(buf)
+        if hh.ok and len(hh.entries) > 1 and hh.entries[-1]["clen"] > 0:
+            a = hh.hdr_total + hh.entries[-1]["start"]; z = a + hh.entries[-1]["clen"]
+            for p in sorted({a, (a + z) // 2, z - 1}):
+                for st_ in ("exact", "exactblk"):
+                    b = bytearray(buf); b[p] ^= 0x10
+                    cases.append((sname + "-lastflip@%d+style:%s" % (p, st_), bytes(b)))
     if tier == "thorough":
         # every single-bit flip of every body byte of the two smallest files, every truncation length
         for (sname, buf, chunks) in sorted(seeds, key=lambda s_: len(s_[1]))[:2]:
@@ -68,7 +83,7 @@ def run(tier):
                     b = bytearray(buf); b[p] ^= 1 << bit; cases.append(("%s-bit%d.%d" % (sname, p, bit), bytes(b)))
             for t in range(len(buf)):
                 cases.append(("%s-trunc%d" % (sname, t), buf[:t]))
-    styles = ["mix", "one", "big", "blk", "seven", "mix"]
+    styles = ["mix", "one", "big", "blk", "seven", "mix", "exact", "exactblk"]
     scripts = []; meta = []
     for i, (name, b) in enumerate(cases):
         cid = "m%d" % i
@@ -79,6 +94,10 @@ def run(tier):
         st = styles[i % len(styles)]
         if st in ("one", "seven") and total > 3000:
             st = "mix"
+        if "+cap:" in name or "+mid:" in name:
+            st = st if not st.startswith("exact") else "mix"
+        if "+style:" in name:
+            st = name.split("+style:")[1]
         sizes = readtrace.read_sizes(rnd, total, st)
         sink = os.path.join(wd, cid + ".out")
         scr = readtrace.read_script(cid, path, sink, sizes)
